@@ -73,7 +73,7 @@ def samp_a(repo: Repo) -> List[Ob]:
     obs: List[Ob] = []
     P = ("C14",)
     found: Dict[str, int] = {}
-    for fi in repo.all_functions():
+    for fi in repo.scan_functions():
         if not fi.module.name.startswith("photon_weave"):
             continue
         calls = sampler_calls(fi)
@@ -186,7 +186,7 @@ def samp_b(repo: Repo) -> List[Ob]:
     cfgc = repo.cls("Config")
     # (1) who may write Config._key
     writers = 0
-    for fi in repo.all_functions():
+    for fi in repo.scan_functions():
         for n in walk_no_nested(fi.node):
             if isinstance(n, ast.Attribute) and n.attr == "_key" and isinstance(n.ctx, (ast.Store, ast.Del)):
                 writers += 1
@@ -256,7 +256,7 @@ def samp_b(repo: Repo) -> List[Ob]:
 
     # (5) no other entropy / key construction outside Config
     n_calls = 0
-    for fi in repo.all_functions():
+    for fi in repo.scan_functions():
         if not fi.module.name.startswith("photon_weave"):
             continue
         if fi.cls is not None and fi.cls.name == "Config":
@@ -350,7 +350,7 @@ def samp_c(repo: Repo) -> List[Ob]:
     obs: List[Ob] = []
     P = ("C14",)
     n_sets = 0
-    for fi in repo.all_functions():
+    for fi in repo.scan_functions():
         m = fi.module.name
         if not (".state." in m or m.endswith("einsum_constructor")):
             continue
